@@ -7,8 +7,8 @@
      trinterp_q   spatialmath/base/transforms3d.py trinterp, SE(3) case, after the two r2q calls
      trinterp_dyn the shape dispatch of trinterp (SO(3) / SE(3) / anything else) as the code has it
 
-   The models mirror the code AS IT IS (unchanged tree), including the t2r() slip in the SO(3) case of
-   trinterp and the `return ValueError(..)` of its last branch.  Thresholds are parameters (the regenerated
+   The models mirror the code AS IT IS (tree with the fixes ee14c5b: SO(3) case of trinterp without t2r, and 339284c: the last
+   branch raises ValueError).  Thresholds are parameters (the regenerated
    constants of gen/Consts_C11.v are plugged in by gen/Traces_C11.v and Props/C11.v). *)
 From Coq Require Import ZArith Bool.
 From SM Require Import Base.Ops Base.Lin.
@@ -121,9 +121,6 @@ Definition trinterp_q1 (k : T) (shortest : bool) (q1 : V4 T) (p1 : V3 T) (s : T)
 
 (* ------------------------------------------------------------------ the shape dispatch of trinterp, as the code has it *)
 Inductive mat := Mat22 (m : M22 T) | Mat33 (m : M33 T) | Mat44 (m : M44 T) | MatOther.
-(* what a call hands back: a matrix, or (last branch) an exception OBJECT as the return value *)
-Inductive ret := RetMat (m : mat) | RetExc (e : exn).
-
 (* base.t2r: 3x3 -> leading 2x2, 4x4 -> leading 3x3, else ValueError *)
 Definition t2r_dyn (m : mat) : res mat :=
   match m with
@@ -137,48 +134,45 @@ Definition r2q_dyn (kr : T) (m : mat) : res (V4 T) :=
 Definition bind {A B} (x : res A) (f : A -> res B) : res B := match x with Ok a => f a | Err e => Err e end.
 Definition transl_dyn (m : mat) : res (V3 T) := match m with Mat44 a => Ok (transl3 a) | _ => Err ValueError end.
 
-Definition trinterp_dyn (k kr : T) (shortest : bool) (start : option mat) (end_ : mat) (s : T) : res ret :=
+Definition trinterp_dyn (k kr : T) (shortest : bool) (start : option mat) (end_ : mat) (s : T) : res mat :=
   if negb (in01 s) then Err ValueError
   else match end_ with
-  | Mat33 _ =>                                   (* "SO(3) case": calls t2r on the 3x3 *)
+  | Mat33 _ =>                                   (* SO(3) case: r2q on the 3x3 arguments themselves *)
       match start with
-      | None => bind (t2r_dyn end_) (fun r => bind (r2q_dyn kr r) (fun q0 =>
-                bind (slerp k (qone O) q0 s shortest) (fun qr => Ok (RetMat (Mat33 (q2r_m qr))))))
-      | Some st => bind (t2r_dyn st) (fun r0 => bind (r2q_dyn kr r0) (fun q0 =>
-                   bind (t2r_dyn end_) (fun r1 => bind (r2q_dyn kr r1) (fun q1 =>
-                   bind (slerp k q0 q1 s shortest) (fun qr => Ok (RetMat (Mat33 (q2r_m qr))))))))
+      | None => bind (r2q_dyn kr end_) (fun q0 =>
+                bind (slerp k (qone O) q0 s shortest) (fun qr => Ok (Mat33 (q2r_m qr))))
+      | Some st => bind (r2q_dyn kr st) (fun q0 => bind (r2q_dyn kr end_) (fun q1 =>
+                   bind (slerp k q0 q1 s shortest) (fun qr => Ok (Mat33 (q2r_m qr)))))
       end
   | Mat44 e4 =>
       match start with
       | None => bind (t2r_dyn end_) (fun r => bind (r2q_dyn kr r) (fun q0 =>
-                bind (trinterp_q1 k shortest q0 (transl3 e4) s) (fun m => Ok (RetMat (Mat44 m)))))
+                bind (trinterp_q1 k shortest q0 (transl3 e4) s) (fun m => Ok (Mat44 m))))
       | Some st => bind (t2r_dyn st) (fun r0 => bind (r2q_dyn kr r0) (fun q0 =>
                    bind (t2r_dyn end_) (fun r1 => bind (r2q_dyn kr r1) (fun q1 =>
                    bind (transl_dyn st) (fun p0 =>
-                   bind (trinterp_q k shortest q0 q1 p0 (transl3 e4) s) (fun m => Ok (RetMat (Mat44 m))))))))
+                   bind (trinterp_q k shortest q0 q1 p0 (transl3 e4) s) (fun m => Ok (Mat44 m)))))))
       end
-  | _ => Ok (RetExc ValueError)                  (* `return ValueError(...)`: not raised *)
+  | _ => Err ValueError                          (* raise ValueError('Argument must be SO(3) or SE(3)') *)
   end.
 
 (* numeric code of an outcome, for the float correspondence run:
    0 matrix 3x3 / value, 1 matrix 4x4, 2 raises ValueError, 6 raises AssertionError, 7 raises TypeError, 8 raises IndexError,
-   4 RETURNS an exception object, 5 other matrix *)
+   5 other matrix  (the harness uses 4 for "an exception object was RETURNED", which the model never produces) *)
 Definition exn_code (e : exn) : T :=
   match e with ValueError => of_Z O 2 | AssertionError => of_Z O 6 | TypeError => of_Z O 7 | IndexError => of_Z O 8 end.
 Definition res_code {A} (r : res A) : T := match r with Ok _ => of_Z O 0 | Err e => exn_code e end.
-Definition outcome_code (r : res ret) : T :=
+Definition outcome_code (r : res mat) : T :=
   match r with
-  | Ok (RetMat (Mat33 _)) => of_Z O 0
-  | Ok (RetMat (Mat44 _)) => of_Z O 1
-  | Ok (RetMat _) => of_Z O 5
-  | Ok (RetExc _) => of_Z O 4
+  | Ok (Mat33 _) => of_Z O 0
+  | Ok (Mat44 _) => of_Z O 1
+  | Ok _ => of_Z O 5
   | Err e => exn_code e
   end.
 Definition optres {A} (r : res A) : option A := match r with Ok a => Some a | Err _ => None end.
 End Interp.
 
 Arguments Mat22 {T} m. Arguments Mat33 {T} m. Arguments Mat44 {T} m. Arguments MatOther {T}.
-Arguments RetMat {T} m. Arguments RetExc {T} e.
 
 Create HintDb c11 discriminated.
 #[export] Hint Unfold in01 clip11 slerp_flip slerp_q0 slerp_dot slerp_theta slerp_general slerp qunit_m uq_construct uq_weights uq_interp
